@@ -1024,6 +1024,10 @@ def run_reference(case, base, trig):
     def ai_run(self, st, c, out):
         if c.node.kind in ('text', 'comment', 'pi'):
             trig.hit.add('apply-imports-leaf')
+        if c.rule is not None and c.node.kind in ('root', 'element') and c.node.children:
+            m = c.rule.template.merged
+            if st.find_rule(c.node, c.mode, m.lo, m.prec) is None:
+                trig.hit.add('apply-imports-builtin')
         return orig_ai(self, st, c, out)
 
     X._ApplyTemplates.run = at_run
@@ -1068,19 +1072,35 @@ def run_xsltproc(case, d):
     return p.returncode, p.stdout.decode('utf-8', 'replace'), p.stderr.decode('utf-8', 'replace')
 
 
-def strip_top(ev):
-    """top-level whitespace-only text is not comparable (serializer newlines)"""
+def normalize(ev, top=True):
+    """Comparison form: top-level whitespace-only text dropped and top-level
+    text trimmed (serializer newlines); leading whitespace of PI data dropped
+    (lost by serialization); empty comments dropped (libxml2 does not
+    serialize a comment node without content)."""
     out = []
     for e in ev:
         if e[0] == 'T':
-            s = e[1].strip(' \t\r\n')
-            if not s:
-                continue
-            # leading/trailing whitespace of top-level text: the serializer may add a newline
-            out.append(('T', s))
+            s = e[1]
+            if top:
+                s = s.strip(' \t\r\n')
+                if not s:
+                    continue
+            if out and out[-1][0] == 'T':
+                out[-1] = ('T', out[-1][1] + s)
+            else:
+                out.append(('T', s))
+        elif e[0] == 'P':
+            out.append(('P', e[1], e[2].lstrip(' \t\r\n')))
+        elif e[0] == 'C':
+            if e[1] != '':
+                out.append(e)
         else:
-            out.append(e)
+            out.append(('E', e[1], e[2], normalize(e[3], False)))
     return out
+
+
+def strip_top(ev):
+    return normalize(ev)
 
 
 def parse_output(text):
